@@ -24,6 +24,25 @@ from ufl.protocols import id_or_none
 __all_classes__ = ["Integral"]
 
 
+def _canonical_metadata(metadata):
+    """Return a copy of metadata in which every dict lists its keys in sorted order.
+
+    Dict equality ignores the insertion order while ``repr`` follows it; printing the
+    canonical copy makes equal metadata print identically (and still evaluate to an
+    equal object).  Dicts nested in dict values, lists and tuples are treated alike.
+    """
+    if isinstance(metadata, dict):
+        try:
+            keys = sorted(metadata)
+        except TypeError:
+            # keys that are not mutually orderable
+            keys = sorted(metadata, key=repr)
+        return {key: _canonical_metadata(metadata[key]) for key in keys}
+    if type(metadata) in (list, tuple):
+        return type(metadata)(_canonical_metadata(value) for value in metadata)
+    return metadata
+
+
 class Integral:
     """An integral over a single domain."""
 
@@ -183,7 +202,8 @@ class Integral:
         """Representation."""
         return (
             f"Integral({self._integrand!r}, {self._integral_type!r}, {self._ufl_domain!r}, "
-            f"{self._subdomain_id!r}, {self._metadata!r}, {self._subdomain_data!r}, "
+            f"{self._subdomain_id!r}, {_canonical_metadata(self._metadata)!r}, "
+            f"{self._subdomain_data!r}, "
             f"extra_domain_integral_type_map={self._extra_domain_integral_type_map!r})"
         )
 
